@@ -176,7 +176,7 @@ func checkC17(cx *Ctx, r *Report) {
 		ok := false
 		if st != nil {
 			for i := 0; i < st.NumFields(); i++ {
-				if st.Field(i).Name() == tf.field && st.Field(i).Type().String() == "*html/template.Template" {
+				if fname(st.Field(i)) == tf.field && st.Field(i).Type().String() == "*html/template.Template" {
 					ok = true
 				}
 			}
